@@ -206,6 +206,15 @@ def extra_cases():
     ft = lambda x: x if isinstance(x, tuple) else sorted((k, v.extension, v.comment, v.lexer) for k, v in x.extra_filetypes.items())
     if ft(a) != ft(b) or isinstance(a, tuple):
         bad.append(("extra_filetypes with several blanks / tabs between the parts", ft(a), ft(b)))
+    # a favicon the user names is the user's file, whatever its name - also one called favicon.png in the project directory
+    for spelling in ("./favicon.png", "favicon.png", "./icons/logo.png"):
+        a, d, _ = _run(md_meta=f"favicon: {spelling}\n")
+        b, d2, _ = _run(toml=f'favicon = "{spelling}"\n')
+        fa = a if isinstance(a, tuple) else os.path.relpath(str(a.favicon), d)
+        fb = b if isinstance(b, tuple) else os.path.relpath(str(b.favicon), d2)
+        want = os.path.normpath(spelling)
+        if fa != want or fb != want:
+            bad.append((f"favicon: {spelling} (relative to the project file)", {"project file": fa, "fpm.toml": fb}, want))
     # command line overrides file; explicit flags override --config; --config overrides file
     a, d, _ = _run(md_meta="quiet: false\nrevision: from-file\nmacro: FILE=1\n", cargs={"quiet": True, "revision": "from-cli", "macro": ["CLI=1"]})
     if isinstance(a, tuple) or (a.quiet, a.revision, a.macro) != (True, "from-cli", ["CLI=1"]):
